@@ -21,7 +21,7 @@ ASSUMPTIONS = [
     'an origin outside its named zone is decided only by what follows it: a byte placed from there must be rejected; '
     'with no byte placed the origin alone is not decided by the property',
     'includes are not placed inside conditionally excluded regions (that interaction is C08/C17)',
-    'zones predefined in the configuration are generated inside GLOBAL',
+    'zones predefined in the configuration lie inside GLOBAL in the general programs; a directed family places one above, below or across the end of a redefined GLOBAL and asks only that no byte is assembled outside GLOBAL',
 ]
 BUDGET = {'quick': 3200, 'thorough': 200000}
 LEVEL_TEXT = ('Exploration over generated zone layouts and whole programs; containment, concatenation of stretches, '
@@ -37,6 +37,28 @@ FAULTS = ['below-global', 'above-global', 'duplicate-predefined', 'duplicate-cre
 def _cases(draw, tier):
     cfg = draw(G.layout_isa(zones=True, redefine_global=True, blocks=True,
                             address_sizes=(8, 12, 16, 16, 16, 24, 32)))
+    if draw(st.integers(0, 9)) == 0:
+        # a zone predefined by the configuration that lies (partly) outside a redefined GLOBAL zone: the configuration is
+        # what it is, but a byte placed outside GLOBAL is refused like anywhere else
+        asz = draw(st.sampled_from([12, 16, 16]))
+        top = (1 << asz) - 1
+        glo = draw(st.sampled_from([0, 0x10, 0x100]))
+        ghi = draw(st.integers(glo + 0x40, top - 0x40))
+        where = draw(st.sampled_from(['above', 'above', 'straddling-the-end', 'below'] if glo else ['above', 'above', 'straddling-the-end']))
+        if where == 'above':
+            zs = draw(st.integers(ghi + 1, top - 8))
+            ze = draw(st.integers(zs + 4, min(top, zs + 0x30)))
+        elif where == 'below':
+            zs = draw(st.integers(0, glo - 4))
+            ze = draw(st.integers(zs + 2, glo - 1))
+        else:
+            zs = draw(st.integers(max(glo, ghi - 6), ghi))
+            ze = min(top, ghi + draw(st.integers(1, 9)))
+        off = draw(st.integers(0, ze - zs))
+        n = draw(st.integers(1, min(3, ze - zs - off + 1)))
+        how = draw(st.sampled_from(['memzone-then-fill', 'zone-relative-origin', 'memzone-then-fill']))
+        return {'kind': 'predefined-zone-outside-global', 'asz': asz, 'global': [glo, ghi], 'zone': [zs, ze], 'where': where,
+                'offset': off, 'count': n, 'how': how, 'endian': draw(st.sampled_from(['big', 'little']))}
     if draw(st.integers(0, 5)) == 0:
         return draw(_fault_case(cfg))
     b, feats = G.general_program(draw, cfg, max_steps=28,
@@ -105,7 +127,51 @@ def zone_usage(lay):
     return stretches
 
 
+def _execute_outside(case):
+    glo, ghi = case['global']
+    zs, ze = case['zone']
+    cfg = {'general': {'address_size': case['asz'], 'endian': case['endian'], 'registers': ['a'], 'origin': glo},
+           'predefined': {'memory_zones': [{'name': 'GLOBAL', 'start': glo, 'end': ghi}, {'name': 'io', 'start': zs, 'end': ze}]},
+           'operand_sets': {'imm': {'operand_values': {'i': {'type': 'numeric', 'argument': {'size': 8, 'byte_align': True}}}}},
+           'instructions': {'nop': {'bytecode': {'value': 0xEA, 'size': 8}}}}
+    off, n = case['offset'], case['count']
+    if case['how'] == 'zone-relative-origin':
+        src = f'.byte 1\n.org {off} "io"\n.fill {n}, $55\n'
+    else:
+        src = '.byte 1\n.memzone io\n' + (f'.zero {off}\n' if off else '') + f'.fill {n}, $55\n'
+        # (the zeros in front are bytes too)
+    first = zs + (off if case['how'] == 'zone-relative-origin' else 0)
+    last = zs + off + n - 1
+    outside = first < glo or last > ghi
+    fname, text = isagen.dump_isa(cfg, 'yaml')
+    lo, hi = min(glo, zs), max(glo, last)
+    argv = ['compile', '-c', fname, '-o', 'out.bin', '-s', str(lo), '-e', str(hi), '-f', '238', 'main.asm']
+    res = runner.run_forked(argv, {fname: text, 'main.asm': src})
+    detail = {'source': src, 'predefined': cfg['predefined'], 'argv': argv, 'bytes_from': first, 'bytes_to': last,
+              'expected': 'rejected: a byte outside the GLOBAL zone' if outside else 'accepted', 'run': res.brief()}
+    findings = []
+    if res.klass == 'timeout':
+        findings.append(Finding('C05/timeout', detail))
+    elif outside and res.klass == 'accepted':
+        findings.append(Finding('C05/invalid-program-accepted/byte-outside-GLOBAL-in-a-predefined-zone', detail))
+    elif not outside and res.klass != 'accepted':
+        findings.append(Finding('C05/valid-program-rejected', detail))
+    elif not outside:
+        want = bytearray([238] * (hi - lo + 1))
+        want[glo - lo] = 1
+        for a in range(first, last + 1):
+            want[a - lo] = 0 if a < zs + off else 0x55
+        if res.outputs.get('out.bin') != bytes(want):
+            detail['expected_image'] = bytes(want).hex()
+            findings.append(Finding('C05/wrong-image/zones', detail))
+    return Outcome(findings, True, ['kind:predefined-zone-outside-global', 'where:' + case['where'], 'how:' + case['how'],
+                                    'expected:' + ('rejected' if outside else 'accepted'), 'outcome:' + res.klass], 1,
+                   sample={'source': src, 'predefined': cfg['predefined'], 'expected': detail['expected']})
+
+
 def execute(case, ctx):
+    if case.get('kind') == 'predefined-zone-outside-global':
+        return _execute_outside(case)
     try:
         cfg, isa, fname, files, verdict, lay = run_layout_case(ID, case)
         if verdict == 'accepted':
